@@ -164,12 +164,13 @@ func init() {
 		ID:    "C11",
 		Level: "proof",
 		Funcs: []string{"tcell.(*tScreen).parseRune", "tcell.(*tScreen).parseFocus", "tcell.(*tScreen).parseFunctionKey", "tcell.(*tScreen).inputLoop", "tcell.(*tScreen).collectEventsFromInput"},
-		Custom: []func(*PropRun){c11Paste, c02Replays},
+		Custom: []func(*PropRun){c11Paste, c02Replays, c11Charsets},
 		Trusted: []string{"transform.Transformer (the charset decoder): bounds and 'no output without consuming input' are assumed; WHICH rune a byte sequence decodes to is the decoder's business (x/text), not modelled",
 			"Tty.Read fills at most len(p) bytes and reports how many (assumed interface contract)",
 			"Go channels are FIFO; one reader of keychan (mainLoop): chunk order = read order (assumed)"},
 		Assume: []string{"the composition 'one event per character, in order, for every split of the byte stream' follows from: parseRune offers every prefix length before answering partial and consumes exactly what the decoder consumed; the driver re-runs the parsers on the accumulated buffer; chunks are private copies in read order - the whole-stream statement is a meta-argument (DESIGN.md), not a single obligation",
-			"per-charset statement 'every code point decodes from exactly its own encoding and from no proper prefix' is not checked (no validator over the x/text tables was built)"},
+			"per-charset behaviour of the x/text decoders is outside the verifier's reach: BOUNDED stand-in charset[*]/every-character-one-event = native exhaustive enumeration of the real driver over every character (except U+FFFD, which decoders substitute for invalid input and the library drops by design) of every registered stateless charset, one read and every split; sequences of characters follow from the driver contract"},
+		Bounded: []string{"charset[*]/every-character-one-event: exhaustive over single characters per charset, executed natively on the real code; not a proof"},
 	})
 	reg(&PropDef{
 		ID:    "C18",
@@ -177,7 +178,8 @@ func init() {
 		Funcs: []string{"tcell.(*simscreen).postEvent", "tcell.(*simscreen).InjectKey", "tcell.(*simscreen).InjectMouse", "tcell.(*simscreen).InjectKeyBytes",
 			"tcell.(*simscreen).showCursor", "tcell.(*simscreen).hideCursor", "tcell.(*simscreen).ShowCursor", "tcell.(*simscreen).GetCursor",
 			"tcell.(*simscreen).resize", "tcell.(*simscreen).SetSize", "tcell.(*simscreen).clearScreen", "tcell.(*simscreen).drawCell", "tcell.(*simscreen).draw", "tcell.(*simscreen).Show"},
-		Custom: []func(*PropRun){c18Replays},
+		Custom: []func(*PropRun){c18Replays, c11Charsets},
+		Bounded: []string{"charset[*]/every-character-one-event: InjectKeyBytes on every character of every registered stateless charset, executed natively on the real code; not a proof"},
 		Trusted: []string{"transform.Transformer.Transform writes only into dst, returns counts within bounds and produces no output without consuming input (assumed interface contract); which bytes a charset produces is not modelled",
 			"utf8.EncodeRune returns 1..4 and writes only into its buffer (assumed)", "Go channels are FIFO: events come out of PollEvent in the order postEvent offered them (assumed)"},
 		Assume: []string{"cell widths are non-negative (CellBuffer invariant; stated precondition of drawCell/draw/Show)",
